@@ -44,6 +44,7 @@ func quickSchemas() []gschema.Schema {
 	c := func(t gschema.Term) gschema.Term { t.Constr = true; return t }
 	def := func(t gschema.Term, d string) gschema.Term { t.Default = d; return t }
 	var out []gschema.Schema
+	seenNamed := 0
 	for _, l := range gschema.CoreLeaves() {
 		out = append(out, gschema.Field1(l, true))
 	}
@@ -59,6 +60,10 @@ func quickSchemas() []gschema.Schema {
 		gschema.Field1(irgen.Struct1("g", true, S("string")), true), gschema.Field1(irgen.Struct1("g", false, irgen.Enum("str")), false),
 		gschema.Field1(irgen.Disj(S("string"), S("bool")), true), gschema.Field1(irgen.Disj(S("string"), A(S("string"))), false),
 		gschema.Field1(disc, true),
+		// references to named collections (L=array(string), M=map(int64), LS=array(ref S)): required ones come
+		// with CoreLeaves above; optional and nullable ones exercise the pointer-to-named-collection paths
+		gschema.Field1(ref("L"), false), gschema.Field1(ref("M"), false), gschema.Field1(ref("LS"), false),
+		gschema.Field1(irgen.Nullable(ref("L")), true), gschema.Field1(irgen.Nullable(ref("M")), false), gschema.Field1(irgen.Nullable(ref("LS")), true),
 		gschema.WithSupport(gschema.Obj{Name: "Root", T: irgen.Struct1("u", true, ref("U"))}, gschema.Obj{Name: "U", T: disc}),
 		gschema.WithSupport(gschema.Obj{Name: "Root", T: irgen.StructN([]irgen.Field{{Name: "v", Required: true}, {Name: "next", Required: false}}, []gschema.Term{S("string"), ref("Root")})}),
 		gschema.WithSupport(gschema.Obj{Name: "Root", T: irgen.StructN([]irgen.Field{{Name: "children", Required: false}}, []gschema.Term{A(ref("Root"))})}),
@@ -68,6 +73,14 @@ func quickSchemas() []gschema.Schema {
 			[]gschema.Term{irgen.Disj(S("string"), S("bool")), ref("StringOrBool")})}, gschema.Obj{Name: "StringOrBool", T: irgen.Struct1("json", true, S("string"))}),
 	} {
 		out = append(out, s)
+	}
+	for _, l := range gschema.CoreLeaves() {
+		if l.K == "ref" && (l.A == gschema.Pkg+".L" || l.A == gschema.Pkg+".M" || l.A == gschema.Pkg+".LS") {
+			seenNamed++
+		}
+	}
+	if seenNamed != 3 {
+		vx.Fatalf("gschema.CoreLeaves() no longer has the references to named collections ref(L), ref(M), ref(LS)")
 	}
 	member := map[string]bool{}
 	for _, s := range gschema.Enumerate(false) {
@@ -175,6 +188,18 @@ func (ck *checker) markComplete(inputs []*Input) {
 				delete(ck.partial, in.Key()+"\x00"+lang)
 			}
 		}
+	}
+}
+
+// extraSchemas are part-A schemas of BOTH tiers that grammar G's enumeration does not produce:
+// references to a named map of structs (MS = map(ref S)), required, optional and nullable.
+func extraSchemas() []gschema.Schema {
+	ms := gschema.Obj{Name: "MS", T: irgen.Map(irgen.Ref(gschema.Pkg + ".S"))}
+	r := irgen.Ref(gschema.Pkg + ".MS")
+	return []gschema.Schema{
+		gschema.WithSupport(gschema.Obj{Name: "Root", T: irgen.Struct1("f", true, r)}, ms),
+		gschema.WithSupport(gschema.Obj{Name: "Root", T: irgen.Struct1("f", false, r)}, ms),
+		gschema.WithSupport(gschema.Obj{Name: "Root", T: irgen.Struct1("f", true, irgen.Nullable(r))}, ms),
 	}
 }
 
@@ -548,6 +573,7 @@ func main() {
 	} else {
 		schemasA = quickSchemas()
 	}
+	schemasA = append(schemasA, extraSchemas()...)
 	var inputsA []*Input
 	fallback := map[string]int{}
 	for _, s := range schemasA {
